@@ -13,6 +13,11 @@ RULES = [
     ("LazyBigint", "C14"), ("int ", "C14"), ("lcm", "C14"), ("floor_root", "C14"), ("9223372036854775808", "C14"),
 ]
 OPEN = [
+    {"id": "K-C06-01", "property": "C06", "status": "open",
+     "sig": r"^(construct:set_default(_present)?|set_default<K, V>\(Mapping<K, V>, K, V\)->Mapping<K, V>)\|pos\((0|1|2),?\)\|error_argument_dropped$",
+     "what": "mapping set_default(m, k, v) does not evaluate v when k is present, so an error (or an effect) in v is dropped: `mapping<int>().set(1, 2).set_default(1, error(\"e\"))` is the mapping, not the error; the book does not list set_default among the short-circuit functions",
+     "example": "let r0 = mapping<int>().set(1, 2).set_default(1, error(\"E0\"));",
+     "why_not_fixed": "the shipped test script 351 asserts exactly this behaviour (m.set_default(10, error(\"\")) == m), so evaluating v first breaks the unedited suite; the disagreement is between book and tests"},
     {"id": "K-C02-01", "property": "C02", "status": "open",
      "sig": r"^grammar:lt_gt_in_argument_list\|rejected$",
      "what": "`f(a < b, c > d)`: a bare name followed by `<` inside an argument / element list is parsed as a generic specialisation `a<b, c>` and the program is rejected with a syntax error (e.g. `if(x < y, y > 0, true)`); writing `(x < y)` works",
